@@ -780,13 +780,21 @@ func burstCase(rng *rand.Rand, w *Writer, suite string) {
 		w.Case(suite, []string{"kind=window2", "pop=" + strings.Join(pops, ";")}, "HUNG")
 		return
 	}
-	downs, _, _ := world.collect()
+	downs, pubs, _ := world.collect()
 	var dl []string
 	for _, x := range downs {
 		dl = append(dl, dlStr(x))
 	}
 	sort.Strings(dl)
+	// what the application was sent, read only now that all five frames have been handled (a subscriber that is a little
+	// slow): five events, each with its own device, payload and gateway
+	var pl []string
+	for _, p := range pubs {
+		pl = append(pl, fmt.Sprintf("%x:%x:%s:%x", uint64(p.Application.AppEUI.ToInt64()), uint64(p.Device.DeviceEUI.ToInt64()), hx(p.Payload),
+			uint64(p.FrameContext.GatewayContext.Gateway.GatewayEUI.ToInt64())))
+	}
+	sort.Strings(pl)
 	w.Case(suite, []string{fmt.Sprintf("cfg=%d:0", opts.netID), fmt.Sprintf("apps=%x", uint64(a.ToInt64())), "pop=" + strings.Join(pops, ";"),
-		"pre=" + strings.Join(pre, "|"), strings.Join(es, " "), fmt.Sprintf("nf=%d", ndev), "kind=window2", "sched="}, "D["+strings.Join(dl, ";")+"] P[] "+h.dumpAll())
+		"pre=" + strings.Join(pre, "|"), strings.Join(es, " "), fmt.Sprintf("nf=%d", ndev), "pubs=1", "kind=window2", "sched="}, "D["+strings.Join(dl, ";")+"] P["+strings.Join(pl, ";")+"] "+h.dumpAll())
 	w.Count("sched.window2.burst-of-five")
 }
